@@ -992,6 +992,9 @@ def scenario_group(rnd, n):
 
     class RecConsumer:
         live = []
+        shutting = []            # (consumer, Deferred) graceful shutdowns that have not finished yet
+        slow_shutdown = [False]
+        fail_at_start = [None]   # a retriable error the next started consumer reports synchronously (already-failed start)
 
         def __init__(self, client, topic, partition, processor, consumer_group, commit_consumer_id, commit_generation_id, **kw):
             self.key = (topic, partition, commit_generation_id)
@@ -999,6 +1002,14 @@ def scenario_group(rnd, n):
             self.stopped = False
 
         def start(self, offset):
+            older = [c_.key for c_ in RecConsumer.live if c_.key[2] != self.key[2]]
+            if older:
+                raise Hit('C16:consumer-started-while-consumers-of-an-earlier-generation-run', (self.key, older))
+            if RecConsumer.fail_at_start[0] is not None:
+                err, RecConsumer.fail_at_start[0] = RecConsumer.fail_at_start[0], None
+                self._start_d = defer.fail(Failure(err))
+                self.stopped = True
+                return self._start_d
             self._start_d = defer.Deferred()
             RecConsumer.live.append(self)
             return self._start_d
@@ -1008,15 +1019,26 @@ def scenario_group(rnd, n):
             self.stopped = True
             if self in RecConsumer.live:
                 RecConsumer.live.remove(self)
+            for pair in list(RecConsumer.shutting):
+                if pair[0] is self:
+                    RecConsumer.shutting.remove(pair)
             if d and not d.called:
                 d.callback(None)
 
         def shutdown(self):
+            if RecConsumer.slow_shutdown[0]:
+                # still processing / committing: finishes later (event consumer_shutdown_done)
+                d = defer.Deferred()
+                RecConsumer.shutting.append((self, d))
+                return d
             self.stop()
             return defer.succeed(None)
 
     def one(r, script):
         RecConsumer.live = []
+        RecConsumer.shutting = []
+        RecConsumer.slow_shutdown[0] = r.random() < 0.4
+        RecConsumer.fail_at_start[0] = None
         clock = task.Clock()
         client = Mock(reactor=clock)
         pending = []
@@ -1031,6 +1053,9 @@ def scenario_group(rnd, n):
 
         def srtc(group, payload, encoder_fn, decode_fn, **kw):
             kind = type(payload).__name__
+            if kind == '_JoinGroupRequest' and (RecConsumer.live or RecConsumer.shutting):
+                raise Hit('C16:join-requested-before-the-previous-generation-consumers-were-shut-down',
+                          [c_.key for c_ in RecConsumer.live])
             requests.append((kind, state['stopping']))
             d = defer.Deferred()
             pending.append((kind, d))
@@ -1048,6 +1073,10 @@ def scenario_group(rnd, n):
                     opts += ['reply', 'reply', 'error']
                 if RecConsumer.live and not state['stopping']:
                     opts += ['consumer_error']
+                if RecConsumer.shutting:
+                    opts += ['consumer_shutdown_done', 'consumer_shutdown_done']
+                if not state['stopping'] and r.random() < 0.15:
+                    opts += ['next_consumer_fails_at_start']
                 if not state['stopping'] and step > 2:
                     opts += ['stop']
                 ev = r.choice(opts)
@@ -1077,6 +1106,13 @@ def scenario_group(rnd, n):
                         cns = RecConsumer.live[0]
                         if cns._start_d and not cns._start_d.called:
                             cns._start_d.errback(Failure(RebalanceInProgress()))
+                    elif ev == 'consumer_shutdown_done':
+                        cns, d = RecConsumer.shutting.pop(0)
+                        cns.stop()
+                        if not d.called:
+                            d.callback(None)
+                    elif ev == 'next_consumer_fails_at_start':
+                        RecConsumer.fail_at_start[0] = r.choice([RebalanceInProgress(), NotCoordinator(), RequestTimedOutError()])
                     elif ev == 'stop':
                         state['stopping'] = True
                         g.stop().addErrback(lambda f: None)
@@ -1091,10 +1127,16 @@ def scenario_group(rnd, n):
                 if state['stopping']:
                     bad = [k for k, st_ in requests if st_ and k != '_LeaveGroupRequest']
                     if bad:
-                        raise Hit('C16:group-request-issued-after-stop', bad)
+                        raise Hit('C16:group-request-issued-after-stop', (bad, requests, g._state))
                 if g._start_d is None and state['stopping']:
                     if RecConsumer.live:
                         raise Hit('C16:consumers-outlive-stop', [c_.key for c_ in RecConsumer.live])
+                if not state['stopping'] and not start_res and not g._rejoin_needed and not g._rejoin_d and \
+                        g._heartbeat_looper.running and not RecConsumer.shutting:
+                    # a member that considers itself joined consumes the partitions assigned to it
+                    have = sorted(c_.key[:2] for c_ in RecConsumer.live)
+                    if have != [('t', 0), ('t', 1)]:
+                        raise Hit('C17:joined-member-does-not-consume-its-partitions', (have, g._state))
                 if not state['stopping'] and not start_res:
                     idle = not g._rejoin_d and not (not g._rejoin_needed and g._heartbeat_looper.running) and \
                         not [dc for dc in clock.getDelayedCalls() if getattr(dc.func, '__name__', '') == 'join_and_sync']
